@@ -30,8 +30,11 @@ def one(cases, model, rng, tier, d, rep, tmpdir):
             M = [1] * d
         x = rand_tt(rng, N, rand_ranks(rng, d, 3), dt, M=M)
     elif kind == "svd":
-        A = int_tensor(rng, N, dt, -3, 3)
-        x = torchtt.TT(A, eps=1e-12)
+        # TT-SVD with an active truncation: the rank list then holds numpy integers (np.argmax result)
+        base = rand_tt(rng, N, rand_ranks(rng, d, 2), dt)
+        g = tn.Generator().manual_seed(rng.randrange(1 << 30))
+        A = dense_of(base) + 1e-3 * tn.randn(N, generator=g, dtype=tn.float64).to(dt)
+        x = torchtt.TT(A, eps=rng.choice([1e-12, 0.05, 0.5]))
     elif kind == "sliced":
         big = rand_tt(rng, [n + 2 for n in N], rand_ranks(rng, d, 3), dt)
         x = big[tuple(slice(1, n + 1) for n in N)] if d > 1 else big[(slice(1, N[0] + 1),)]
